@@ -284,7 +284,7 @@ type c12batchItem struct {
 func init() {
 	register("c12-batch", "internal: Eval the sources of a JSON batch file one after the other, one JSON observable per line", func(args []string) error {
 		fs := flag.NewFlagSet("c12-batch", flag.ExitOnError)
-		timeout := fs.Duration("timeout", 20*time.Second, "timeout per source")
+		timeout := fs.Duration("timeout", 5*time.Second, "timeout per source")
 		fs.Parse(args)
 		b, err := os.ReadFile(fs.Arg(0))
 		if err != nil {
@@ -361,7 +361,7 @@ func c12RunBatch(ms []*c12richMutant) {
 		f.Write(b)
 		f.Close()
 		self, _ := os.Executable()
-		ctx, cancel := context.WithTimeout(context.Background(), time.Duration(len(ms))*25*time.Second+30*time.Second)
+		ctx, cancel := context.WithTimeout(context.Background(), time.Duration(len(ms))*6*time.Second+30*time.Second)
 		cmd := exec.CommandContext(ctx, self, "c12-batch", f.Name())
 		var so, se bytes.Buffer
 		cmd.Stdout, cmd.Stderr = &so, &se
@@ -402,11 +402,13 @@ func c12RunBatch(ms []*c12richMutant) {
 			}
 			ms[began].Obs = c12Obs{Class: "ran", Err: "host-crash: " + msg}
 			done = began + 1
-		} else if done < len(ms) && began < done {
-			// nothing started after the last result: the child could not go on; avoid a livelock
-			ms[done].Obs = c12Obs{Class: "ran", Err: "host-crash: child ended without a result"}
-			done++
+		} else if done == 0 {
+			// the child produced nothing at all: do not loop for ever on the same batch
+			ms[0].Obs = c12Obs{Class: "ran", Err: "host-crash: child ended without a result"}
+			done = 1
 		}
+		// otherwise the child stopped after a time-out (the evaluation is still running in it): the
+		// rest of the batch goes to a fresh child
 		ms = ms[done:]
 	}
 }
